@@ -562,3 +562,191 @@ def judge(case):
                          % (name, got[2])))
     return "ok", viol, (case["phase"], len(ref.needed_unbound) > 0, len(got[2]) > 0, alts.index(got[1]),
                         got[1] != tstr)
+
+
+# ----------------------------------------------------------------------------------------------
+# enumeration
+# ----------------------------------------------------------------------------------------------
+TIERS = {
+    # plan = [(kind level, number of segments)], w_values for phase 1
+    "quick": dict(plan=[("full", 0), ("full", 1), ("full", 2), ("std", 2), ("std", 3)], dplan=[("std", 1), ("std", 2), ("core", 3)],
+                  w_values=(MISSING, "w")),
+    "thorough": dict(plan=[("full", 0), ("full", 1), ("full", 2), ("std", 3), ("core", 4)],
+                     dplan=[("full", 1), ("std", 2), ("std", 3), ("core", 4)],
+                     w_values=(MISSING, "w", "", 0, None, ["a", "b"])),
+}
+_REFS_W: dict = {}
+
+
+def references_w(tstr):
+    r = _REFS_W.get(tstr)
+    if r is None:
+        r = _REFS_W[tstr] = "w" in static_unbound(parse(tstr), REGISTRY, {})
+    return r
+
+
+def cases_for(tpl, cfg):
+    """Every case of one template: phase 1, strict, phase 2 (value slots)."""
+    for v in V_VALUES:
+        for w in cfg["w_values"]:
+            yield {"phase": 1, "tpl": tpl, "ctx": mkctx(v, w)}
+    for v in STRICT_V:
+        for w in (MISSING, "w"):
+            yield {"phase": "strict", "tpl": tpl, "ctx": mkctx(v, w)}
+    uses_w = references_w(emit(tpl))
+    for construct, p in PAYLOADS:
+        for slot, v, w in (("v", p, "w"), ("v-item", [p, "b"], "w"), ("v-item", ["a", p], MISSING), ("v-field", [{"k": p}], "w")):
+            yield {"phase": 2, "tpl": tpl, "ctx": mkctx(v, w, P2_BASE), "meta": {"slot": slot, "construct": construct, "payload": p}}
+        if uses_w:
+            for v in (STR, "", ["a", "b"], [{"k": "x"}]):
+                yield {"phase": 2, "tpl": tpl, "ctx": mkctx(v, p, P2_BASE), "meta": {"slot": "w", "construct": construct, "payload": p}}
+        else:
+            yield None
+
+
+def default_templates(dplan):
+    """Templates in which exactly one position is a defaulted variable whose default literal is a payload."""
+    seen, out = set(), []
+    for level, n in dplan:
+        kinds = seg_kinds(level)
+        for pos in range(n):
+            for construct, lit in DEFAULT_PAYLOADS:
+                for rest in itertools.product(kinds, repeat=n - 1):
+                    tpl = number_text(rest[:pos] + (("def", "v", lit),) + rest[pos:])
+                    s = emit(tpl)
+                    if s not in seen:
+                        seen.add(s)
+                        out.append((tpl, construct, lit))
+    return out
+
+
+def default_cases(item):
+    tpl, construct, lit = item
+    for v in (MISSING, STR, ["a", "b"]):
+        yield {"phase": 2, "tpl": tpl, "ctx": mkctx(v, "w", P2_BASE), "meta": {"slot": "default", "construct": construct, "payload": lit}}
+
+
+def _case_order(case):
+    return (len(emit(case["tpl"])), emit(case["tpl"]), repr(case["ctx"]))
+
+
+def _work(arg):
+    kind, items, cfg = arg
+    from collections import Counter
+    st = Counter()
+    viols = {}
+    outcomes = set()
+    samples = []
+    RENDERS[0] = 0
+    for it in items:
+        gen = cases_for(it, cfg) if kind == "t" else default_cases(it)
+        for case in gen:
+            if case is None:
+                st["phase2_slot_w_not_referenced_skipped"] += len(PAYLOADS and (1,)) * 4
+                continue
+            status, vs, oc = judge(case)
+            ph = "phase%s" % case["phase"] if case["phase"] != "strict" else "strict"
+            if status == "skip":
+                st[ph + "_unspecified_skipped"] += 1
+                continue
+            st[ph + "_cases"] += 1
+            if oc is not None:
+                outcomes.add(oc)
+                if oc[-1] is True or case["phase"] == "strict":
+                    st["nontrivial_cases"] += 1
+            if len(case["tpl"]) <= 1 and case["phase"] == 1:
+                outcomes.add(("out", observe(emit(case["tpl"]), case["ctx"])[1]))
+            for k, w in vs:
+                cur = viols.get(k)
+                if cur is None:
+                    viols[k] = [1, w, case]
+                else:
+                    cur[0] += 1
+                    if _case_order(case) < _case_order(cur[2]):
+                        cur[1], cur[2] = w, case
+            if not vs and len(samples) < 2 and len(case["tpl"]) >= 2:
+                samples.append({"template": emit(case["tpl"]), "ctx": case["ctx"], "phase": case["phase"]})
+    st["impl_renders"] = RENDERS[0]
+    return st, viols, outcomes, samples
+
+
+def run(ctx):
+    from collections import Counter
+    cfg = TIERS[ctx.tier]
+    tpls = common.rotate(templates(cfg["plan"]), ctx.seed)
+    dtpls = common.rotate(default_templates(cfg["dplan"]), ctx.seed)
+    n = common.NPROC * 6
+    jobs = [("t", ch, cfg) for ch in common.chunked(tpls, n)] + [("d", ch, cfg) for ch in common.chunked(dtpls, n)]
+    st = Counter()
+    viols = {}
+    samples = []
+    for s, v, oc, sm in common.pmap(_work, jobs):
+        st.update(s)
+        ctx.outcomes |= oc
+        samples += sm
+        for k, (cnt, w, case) in v.items():
+            cur = viols.get(k)
+            if cur is None:
+                viols[k] = [cnt, w, case]
+            else:
+                cur[0] += cnt
+                if _case_order(case) < _case_order(cur[2]):
+                    cur[1], cur[2] = w, case
+    for k in sorted(viols):
+        cnt, w, case = viols[k]
+        for _ in range(cnt):
+            ctx.report(k, w, case)
+    for s in sorted(samples, key=lambda x: (len(x["template"]), x["template"], repr(x["ctx"])))[:6]:
+        ctx.sample(s)
+    ctx.stats.update(st)
+    cases = sum(v for k, v in st.items() if k.endswith("_cases") and k != "nontrivial_cases")
+    ctx.coverage.update(
+        states=cases,
+        transitions=st["impl_renders"],
+        traces_validated_against_impl=cases,
+        evaluations=cases,
+        distinct_nontrivial=st["nontrivial_cases"],
+        templates=len(tpls),
+        default_literal_templates=len(dtpls),
+        plan=[list(p) for p in cfg["plan"]],
+        default_plan=[list(p) for p in cfg["dplan"]],
+        segment_kinds={lv: len(seg_kinds(lv)) for lv in ("core", "std", "full")},
+        payloads=[p for _, p in PAYLOADS],
+        rule="every template = sequence of n segment kinds (plan: [kind level, n]; kinds = text, {{v}}, {{?v}}, defaults, "
+        "filters, if/else, each with loop bodies, includes up to 3 levels/unknown) x every context (v over 11 values x w) "
+        "non-strict, x value classes in strict mode, x every (payload, slot) in phase 2; states = distinct (template, "
+        "context, mode) cases rendered by the real Ribosome and compared with the reference; transitions = real "
+        "synthesize() calls incl. single-segment attribution re-runs; non-trivial = output differs from the template "
+        "text (something was expanded) or strict mode",
+        exhaustive=True,
+    )
+    ctx.assumptions += [
+        "blocks are non-nested, loop bodies and if bodies contain only text and plain variables (the quantifier's grammar)",
+        "each over a non-list value, `length` of a value without len(), and the text emitted for an unbound plain/"
+        "filtered variable (raw placeholder or empty both accepted) are not fixed by the documentation: not judged",
+        "strict mode is judged over value classes of v (missing, str, int, list, empty list, list of dicts) x w bound/missing",
+        "variable names v, w, k, secret, xs; dict items have the single field k; registry of 6 acyclic templates",
+    ]
+
+
+def replay(ctx, case):
+    case = dict(case)
+    case["tpl"] = _tuplify(case["tpl"])
+    case["ctx"] = _listify(case["ctx"])
+    if case.get("meta"):
+        case["meta"] = dict(case["meta"])
+    status, vs, _ = judge(case)
+    return vs
+
+
+def _tuplify(x):
+    return tuple(_tuplify(y) for y in x) if isinstance(x, (list, tuple)) else x
+
+
+def _listify(x):
+    """Context values: JSON round trip gives tuples; the library distinguishes list from tuple only in str()."""
+    if isinstance(x, (list, tuple)):
+        return [_listify(y) for y in x]
+    if isinstance(x, dict):
+        return {k: _listify(v) for k, v in x.items()}
+    return x
